@@ -187,6 +187,11 @@ class MemoryStorageBackend(StorageBackend):
                 memento.invocation_metadata.fn_reference_with_args.fn_reference_with_arg_hash()
             )
         self.mementos[qualified_name].clear()
+        # Metadata may also have been recorded for calls of this function that have no memento
+        for memento_key in [
+            k for k in self.metadata if k.rpartition("/")[0] == qualified_name
+        ]:
+            del self.metadata[memento_key]
 
     def to_dict(self):
         config = {"type": "memory"}
